@@ -746,6 +746,7 @@ type RunOpts struct {
 	MaxConcretize int
 	Concrete      map[string]uint64        // non-nil => concrete mode
 	Redirect      map[string]*ssa.Function // callee full name -> harness model (go-model stubs)
+	BlockIsViolation bool // a goroutine blocked forever is reported as violation "no-deadlock" instead of inconclusive
 }
 
 // RunPath executes harness fn along the path given by prefix.
@@ -797,6 +798,11 @@ func (p *Program) RunPath(fn *ssa.Function, prefix []Decision, c *smt.Ctx, s *sm
 			switch r := r.(type) {
 			case abortPath:
 				res.Abort = &r
+				if r.kind == AbortBlocked && o.BlockIsViolation {
+					res.Panic = "blocked forever: " + r.msg
+					res.Abort = nil
+					x.topViolation(res, "no-deadlock")
+				}
 			case targetPanic:
 				res.Panic = describePanic(r.v)
 				x.topPanic(res)
@@ -822,7 +828,9 @@ func (p *Program) RunPath(fn *ssa.Function, prefix []Decision, c *smt.Ctx, s *sm
 
 // topPanic: an un-recovered target panic reaching the harness top level is a violation of the implicit
 // "no self-inflicted failure" obligation of every harness.
-func (x *Exec) topPanic(res *PathResult) {
+func (x *Exec) topPanic(res *PathResult) { x.topViolation(res, "no-panic") }
+
+func (x *Exec) topViolation(res *PathResult, id string) {
 	defer func() {
 		if r := recover(); r != nil {
 			if a, ok := r.(abortPath); ok {
@@ -832,7 +840,6 @@ func (x *Exec) topPanic(res *PathResult) {
 			panic(r)
 		}
 	}()
-	id := "no-panic"
 	if x.concrete != nil {
 		res.Violations = append(res.Violations, Violation{ID: id, Harness: x.harness, Trail: append([]Decision{}, x.trail...), Detail: res.Panic})
 		return
